@@ -25,13 +25,22 @@ KEYWORDS = set(FUNCS) | {"for", "in", "pi", "name", "version", "target", "type",
 
 OP_NAMES = ["G", "Sgate", "BSgate", "Dgate", "Vac", "Coherent", "Rgate", "Xgate", "Zgate", "Kgate",
             "MeasureX", "MeasureFock", "MeasureHomodyne", "Measure", "names", "inx", "q0a", "sinh2",
-            "Measure1", "True1", "Interferometer", "S2gate", "e", "E", "I", "S", "N"]
+            "Measure1", "True1", "Interferometer", "S2gate", "e", "E", "I", "S", "N",
+            # every gate / state / measurement name that occurs anywhere in the repository (sources, C++ headers,
+            # documentation, examples): an implementation may special-case any of them
+            "Gaussian", "Squeezed", "Fock", "Catstate", "Thermal", "ThermalLossChannel", "GaussianTransform", "Pgate",
+            "CZgate", "CXgate", "Vgate", "MeasureIntensity", "MeasureHeterodyne", "LossChannel", "CKgate", "MeasureP",
+            "Vacuum", "MZgate", "DisplacedSqueezed", "Fouriergate", "MeasureHD", "MeasureThreshold"]
 VAR_NAMES = ["a", "al", "alpha", "b", "beta", "x", "y", "z", "phi", "r", "theta", "names", "inx", "pix",
              "sinh2", "q0a", "e", "E", "I", "S", "N", "j", "U", "A", "B", "M", "A0", "A1", "k_1", "x_0_0",
              "Measure1", "True1", "forx", "int1", "p", "pa", "t0", "p0", "p3", "p12"]
 KW_NAMES = ["a", "phi", "r", "select", "dark_counts", "cutoff", "shots", "e", "alpha", "al", "x", "N"]
 PAR_NAMES = ["a", "al", "alpha", "b", "e", "E", "I", "x", "phi", "r", "theta", "S", "N", "p", "sq", "t1",
-             "alpha_1", "aa", "p0", "p1", "Q", "q0_1", "q1_0", "q3_14", "lambda_"]
+             "alpha_1", "aa", "p0", "p1", "Q", "q0_1", "q1_0", "q3_14", "lambda_",
+             # identifiers that mean something to Python or to the implementation's own plumbing (argument
+             # names of its helpers, Python keywords) and names that start like a register reference
+             "op", "expr", "args", "kwargs", "func", "values", "val", "key", "modes", "program", "np", "sym",
+             "lambda", "def", "is", "None", "class", "not", "q1_phase", "q0x", "O", "i"]
 STRINGS = ["", "a", "hello world", "fock", "a#b", "p0", "x y  z", "1.5", "True", "False", "{a}", "é", "name", "a,b", "[1]", "p0x",
            "True ", "q0", "pi"]
 
@@ -77,6 +86,12 @@ def float_text(rng):
     if rng.random() < 0.15:
         # extreme but finite magnitudes: divisors far below machine epsilon, coefficients that vanish against 1
         return rng.choice(["1e-17", "4e-19", "2.5e-300", "1E+18", "1e-10", "0.5e-16"])
+    if rng.random() < 0.3:
+        # the doubles n*pi and pi/n (true division), written out digit for digit: a value that looks like a
+        # multiple of pi is still just that double
+        import math
+        n = rng.randrange(1, 17)
+        return repr(math.pi * n if rng.random() < 0.5 else math.pi / n)
     return rng.choice(["00.5", "1.50", "0.0", "10.0", "1e0", "5E-1"])
 
 
